@@ -10,6 +10,7 @@ import (
 	"go/types"
 	"regexp"
 	"strconv"
+	"strings"
 )
 
 func (e *Exec) execBlock(st *State, stmts []ast.Stmt) *State {
@@ -59,6 +60,68 @@ func (e *Exec) execStmt(st *State, s ast.Stmt, label string) *State {
 	}
 	e.curPos = s.Pos()
 	e.syncCtx(st.pc.S)
+	if ct := e.curContract(); ct != nil && len(ct.Hints) > 0 && e.depth == 0 {
+		e.applyHints(st, s, ct, false)
+		out := e.execStmt1(st, s, label)
+		if !out.dead {
+			e.applyHints(out, s, ct, true)
+		}
+		return out
+	}
+	return e.execStmt1(st, s, label)
+}
+
+// applyHints performs the ghost lemma applications anchored at statement s.
+func (e *Exec) applyHints(st *State, s ast.Stmt, ct *Contract, after bool) {
+	var src string
+	for _, h := range ct.Hints {
+		if h.After != after {
+			continue
+		}
+		if src == "" {
+			src = e.srcFull(s)
+		}
+		if !strings.HasPrefix(src, h.Anchor) {
+			continue
+		}
+		key := e.pkgShort + "." + h.Lemma
+		lct := e.prog.Contracts[key]
+		lfi := e.prog.Funcs[key]
+		if lct == nil || lfi == nil || !lct.IsLemma {
+			e.specErrors = append(e.specErrors, fmt.Sprintf("hint: %s is not a lemma procedure", h.Lemma))
+			continue
+		}
+		func() {
+			defer e.catchSpec("hint "+h.Lemma, s.Pos())
+			saved := e.specPos
+			if after {
+				e.specPos = s.End()
+			} else {
+				e.specPos = s.Pos()
+			}
+			defer func() { e.specPos = saved }()
+			env := e.localEnv(st)
+			var args []TV
+			for _, a := range h.Args {
+				args = append(args, e.tr(a.E, env))
+			}
+			e.usedLemmas = append(e.usedLemmas, key)
+			e.applyContract(st, nil, lfi, lct, nil, args)
+		}()
+	}
+}
+
+func (e *Exec) srcFull(n ast.Node) string {
+	p0 := e.prog.Fset.Position(n.Pos())
+	p1 := e.prog.Fset.Position(n.End())
+	data, ok := e.prog.srcCache(p0.Filename)
+	if !ok || p1.Offset > len(data) || p0.Offset > p1.Offset {
+		return ""
+	}
+	return strings.Join(strings.Fields(string(data[p0.Offset:p1.Offset])), " ")
+}
+
+func (e *Exec) execStmt1(st *State, s ast.Stmt, label string) *State {
 	switch s := s.(type) {
 	case *ast.BlockStmt:
 		return e.execBlock(st, s.List)
@@ -1060,6 +1123,7 @@ func (e *Exec) cutLoop(st *State, spec *LoopSpec, ord int, label string, vars []
 		}
 	})
 	st.leaves = nil
+	st.cut = len(e.assumps)
 	for _, inv := range spec.Invariants {
 		e.assumeClause(st, inv, nil)
 	}
